@@ -120,6 +120,8 @@ class ContDomain(Domain):
         obj = '.'.join(str(p) for p in path[:-1]) or 'this'
         pre = '' if obj == 'this' else obj + '.'
         last = path[-1]
+        if self.ctor and obj == 'this' and last in getattr(self, 'no_default_init', ()) and last in ('m_size', 'm_capacity', 'm_pos', 'm_data', 'm_array'):
+            return Unknown('uninit:' + str(last))        # no default member initialiser: whatever the storage held
         if last in ('m_size',): return Lin.const(0) if (self.ctor and obj == 'this') else Lin.sym(pre + 'S')
         if last == 'm_capacity': return Lin.const(0) if (self.ctor and obj == 'this') else Lin.sym(pre + 'C')
         if last == 'm_pos': return Lin.const(0) if (self.ctor and obj == 'this') else Lin.sym(pre + 'P')
@@ -247,6 +249,16 @@ class ContDomain(Domain):
                     if bl_.c < 0: return {'>': True, '<=': False, '==': False, '!=': True}[o_]
                 if bl_ == a_.cap:
                     return {'<': True, '<=': True, '>': False, '>=': False, '==': False, '!=': True}[o_]
+        if op in ('==', '!='):
+            # the result of realloc(p, n) tested against null: null exactly when n == 0 (glibc frees and returns NULL; allocation failure is not modelled)
+            isnull = lambda x: (isinstance(x, Ptr) and x.base == 'null') or (isinstance(x, Lin) and x.is_const() and x.c == 0) or (isinstance(x, int) and not isinstance(x, bool) and x == 0)
+            for a_, b_ in ((l, r), (r, l)):
+                if isinstance(a_, Ptr) and a_.base in getattr(self, 'realloc_size', {}) and isnull(b_):
+                    ln = self.realloc_size[a_.base]
+                    sg = self.sign_of(ln)
+                    if sg is None:
+                        self.unknown_cmp.append((repr(ln), n, ln)); return None
+                    return (sg == 0) == (op == '==')
         if isinstance(l, Ptr) and isinstance(r, Ptr) and op in ('==', '!='):
             if l.base == r.base: return op == '=='
             k = f'alias({l.base},{r.base})'
@@ -380,6 +392,10 @@ class ContDomain(Domain):
             self.c_event(st, n, 'alloc', a, p); return p
         if base == 'realloc':
             old = rv(0); a = rv(1); p = Ptr(f'blk@{n.line}:{n.id}')
+            cnt = a.n if isinstance(a, Bytes) else a
+            if isinstance(cnt, (Lin, int)) and as_lin(cnt) is not None:
+                if not hasattr(self, 'realloc_size'): self.realloc_size = {}
+                self.realloc_size[p.base] = as_lin(cnt)
             self.c_event(st, n, 'realloc', old, a, p); return p
         if base == 'free':
             self.c_event(st, n, 'free', rv(0)); return None
